@@ -77,6 +77,25 @@ pub fn encode_file(text: &[u8], p: &Presentation) -> Vec<u8> {
         _ => {
             // multi-member (bgzip style): member boundaries anywhere, also inside a header
             let mut cuts: Vec<usize> = p.cuts.iter().map(|&c| (c as usize * text.len()) >> 16).collect();
+            // a quarter of the files: members end exactly at record boundaries (`cat` of per-record .gz
+            // files, bgzip blocks flushed per record); another quarter: at line boundaries
+            match p.case_seed & 3 {
+                1 => {
+                    for c in cuts.iter_mut() {
+                        if let Some(off) = text[*c..].windows(2).position(|w| w == b"\n>") {
+                            *c += off + 1;
+                        }
+                    }
+                }
+                2 => {
+                    for c in cuts.iter_mut() {
+                        if let Some(off) = text[*c..].iter().position(|&b| b == b'\n') {
+                            *c += off + 1;
+                        }
+                    }
+                }
+                _ => {}
+            }
             cuts.push(0);
             cuts.push(text.len());
             cuts.sort_unstable();
